@@ -14,7 +14,7 @@ REQUIRED_MONITORS = [f"sound+complete@{a}.run" for a in ALGS] + [f"one-NaN-patte
 CRIT = ["conj", "xi", "mpc", "mpd", "cov"]
 ALL_STATES = [f"fails {c} alone" for c in CRIT] + ["fails several", "passes all", "conj=False keeps orphan", "ordmin > 0"]
 REQUIRED_STATES = ["same instance re-run with relaxed criteria", "ordmin > 0", "fails xi alone", "fails mpc alone", "fails mpd alone", "fails cov alone", "fails conj alone", "passes all", "conj=False keeps orphan",
-                   "relaxed mpd_lim in [0.5, 1.2] with mpc_lim = 0", "mpd_lim = 0", "mpc_lim = 1"]
+                   "relaxed mpd_lim in [0.5, 1.2] with mpc_lim = 0", "mpd_lim = 0", "mpc_lim = 1", "result tables re-examined after plotting with freqlim"]
 RULE = ("noisy responses of systems with complex non-proportional shapes, high model orders (many spurious, negatively damped and real poles); a first "
         "run observes the indicator distributions of the unfiltered solution (captured at the return of SSI_poles / pLSCF_poles in the same "
         "execution), later runs put xi_max / mpc_lim / mpd_lim / cov_max at their 30..70 % quantiles; every cell of every run is judged for "
@@ -291,6 +291,19 @@ def run_adaptive(ctx, case, rng, calc_unc=False):
     if r2 is None:
         return
     alone, _ = r2
+    # history: looking at the diagrams (with a frequency window) must leave the result tables what the criteria made them
+    if rng.random() < 0.5:
+        import matplotlib.pyplot as plt
+        fl = (float(0.1 * fs), float(0.3 * fs))
+        for meth in ("plot_stab", "plot_cluster"):
+            try:
+                getattr(a2, meth)(freqlim=fl, hide_poles=bool(rng.integers(0, 2)))
+            except Exception:  # noqa: BLE001  the diagrams are C20's business
+                pass
+        plt.close("all")
+        ctx.state("result tables re-examined after plotting with freqlim")
+        if judge_run(ctx, alg, unf2, a2.result, hc2, not alg.startswith("pLSCF"), suffix) is None:
+            return
     # history: the SAME algorithm instance re-run with relaxed criteria must give what a fresh instance gives (completeness on re-run)
     hc3 = dict(hc2, xi_max=min(1.0, 3 * hc2["xi_max"]), mpc_lim=0.5 * hc2["mpc_lim"], mpd_lim=min(1.57, 2 * hc2["mpd_lim"]))
     a2.run_params.hc = dict(hc3)
